@@ -75,9 +75,16 @@ def call(case, eng):
             return {"ok": True, "err": "", "out": flat(e.vcat(conv("a", a["a"], shape, eng), conv("b", a["b"], shape, eng)))}
         grp, names = SIG[prim]
         args = []
+        vsl = None
+        if prim == "controlled_Veq":
+            n_ = len(a["rho"])
+            vsl = {"all": list(range(n_)), "first": [0], "last": [n_ - 1], "outer": sorted({0, n_ - 1})}.get(
+                a["pat"], [i for i in range(n_) if i >= n_ - 2])
         for n in names:
             if n == "vsl":
-                args.append(list(range(len(a["rho"]))))
+                args.append(vsl)
+            elif n == "v_ctrl" and vsl is not None:
+                args.append(conv(n, [a[n][i] for i in vsl], shape, eng))
             else:
                 args.append(conv(n, a[n], shape, eng))
         return {"ok": True, "err": "", "out": flat(getattr(getattr(e, grp), prim)(*args))}
